@@ -139,6 +139,14 @@ def run(ctx):
             if kind == "affine":
                 T = AffineTransform(xp=xp, dtype=dt)
                 data = xp.asarray(x if n > 1 else np.vstack([x, x + 0.5 * w]), dtype=dt)
+                if rep % 4 == 2 and width == "float64":
+                    # a parameter in tiny physical units (a strain amplitude, a mass ratio known to nine digits): one coordinate's
+                    # spread is 1e-9 ... 1e-11 of the others'
+                    tiny = 10.0 ** -ctx.rng.choice([9, 10, 11])
+                    dnp = np.asarray(nsutil.to_list(data), float)
+                    dnp[:, 0] = dnp[:, 0] * tiny
+                    data = xp.asarray(dnp, dtype=dt)
+                    case = dict(case, first_coordinate_scaled_by=tiny)
                 if rep % 2 == 1:
                     # the same object was fitted before on data of another spread: what follows is about the LAST fit
                     prev = np.asarray(nsutil.to_list(data), float) * 7.5 + 3.0
@@ -161,6 +169,16 @@ def run(ctx):
                     ctx.violation("logj:affine", f"forward log-Jacobian {ljv[0]} != -sum ln|std| = {want}", case)
                 if not close(nsutil.to_list(ljb), -ljv, 1e-6, 1e-6):
                     ctx.violation("inverse-logj:affine", "inverse log-Jacobian != - forward", case)
+                # the derivative itself, not the object's own account of it: the map is affine per coordinate, so two rows with distinct
+                # coordinates give its slope exactly
+                yv_ = np.asarray(nsutil.to_list(y), float)
+                if width == "float64" and dv.shape[0] >= 2:
+                    i1 = int(np.argmax(np.min(np.abs(dv - dv[0]), axis=1)))
+                    dx_ = dv[i1] - dv[0]
+                    if np.all(np.abs(dx_) > 1e-3 * np.abs(std)):
+                        slope_logdet = float(np.sum(np.log(np.abs((yv_[i1] - yv_[0]) / dx_))))
+                        if not close(ljv[0], slope_logdet, 1e-6, 1e-6):
+                            ctx.violation("logj-vs-slope:affine", f"forward log-Jacobian {ljv[0]} but the map's own slope gives log|det| = {slope_logdet}", case)
                 if width == "float64" and irall:
                     A = dict(x=[mp.mpf(v) for v in dv[0]], mean=[mp.mpf(v) for v in mean], std=[mp.mpf(v) for v in std])
                     tie_set("affine_forward_y", close([float(t) for t in ev("affine_forward_y", **A)], np.asarray(nsutil.to_list(y), float)[0], 1e-9, 1e-9 * (1 + np.abs(mean).max() / std.min())), json.dumps(case))
